@@ -32,6 +32,7 @@ def extra(led, tier, seed):
     led.extend(kauri_fit.obligations())
     led.extend(rt_obligations.lattice_obligations(seed, tier))
     led.extend(rt_obligations.int_data_obligations(seed))
+    led.extend(rt_obligations.offset_data_obligations(seed))
     led.assume("A1", "A2", "A4", "A5: softmax rows are probability vectors; argmax over K columns lies in [0, K); scikit-learn validation accepts finite 2-D numeric data with enough samples",
                "fit terminates: range(max_iter) x a finite generator (C10) x terminating third-party calls (ot.emd2, scikit-learn) -- termination of third-party code is assumed",
                "'every configuration the validation accepts' is covered deductively by (i) linkage / glue data-flow contracts for all classes, (ii) shape-safety of the numeric kernels at corner shapes "
